@@ -661,6 +661,29 @@ def validate_predicate(c):
     return bad
 
 
+TWO63 = 1 << 63
+
+
+def outside_guards(c):
+    """Domain guard of Route/Model.v ("amounts in unbounded Z, no Go wrap"):
+    InboundFee.CalcFee computes clamp(rate) * int64(amt) in int64 and
+    CachedEdgePolicy.ComputeFee amt * rate in uint64.  A row is outside the
+    domain when the largest amount seen in it (payment, route, every
+    processEdge probe; x2 for the pivot's own fee that is not observable) times
+    the largest (clamped) fee rate of its graph reaches 2^63: there lnd's
+    arithmetic wraps and the model (and the python predicate) compute with
+    different numbers.  Such rows are counted, never judged."""
+    es = c.get("edges") or c.get("cands") or []
+    if not es:
+        return False
+    rate = max([min(abs(e.get("irate", 0)), 10000000) for e in es] +
+               [e.get("rate", 0) for e in es] + [1])
+    amts = [c.get("amt", 0), c.get("totalamt", 0), c.get("total", 0), c.get("net", 0)]
+    amts += [h["amt"] for h in c.get("hops") or []]
+    amts += [e[3] for e in c.get("evs") or [] if e[0] == 1]
+    return 2 * max(amts) * rate >= TWO63
+
+
 def stats(rows):
     routes = [c for c in rows if c["kind"] == "route"]
     hist = lambda f, rs: {str(k): v for k, v in sorted(
@@ -797,6 +820,15 @@ def run(ctx):
         ctx.violation("harness_failed", "TestVerifRoute", {"log": out[-4000:]},
                       signature="harness", failing_input=False)
         return
+    # rows outside the no-wrap domain of the model are counted and set aside
+    outside = [c for c in rows if outside_guards(c)]
+    if outside:
+        rows = [c for c in rows if not outside_guards(c)]
+        ctx.note("%d of %d rows are outside the no-wrap domain (largest amount x largest clamped fee "
+                 "rate >= 2^63: InboundFee.CalcFee / ComputeFee wrap in Go) and were not judged: %s"
+                 % (len(outside), len(outside) + len(rows),
+                    dict(__import__("collections").Counter(
+                        (c.get("stream") or "base") + ":" + c["kind"] for c in outside))))
     routes = [c for c in rows if c["kind"] == "route"]
     # (3) property predicate on every route the implementation returned
     nfail = 0
@@ -952,6 +984,9 @@ def run(ctx):
         "routes_returned": len(routes),
         "traces_validated_against_impl": len(checked),
         "predicate_failures": nfail,
+        "outside_guards": len(outside),
+        "outside_guards_by_stream": dict(__import__("collections").Counter(
+            (c.get("stream") or "base") + ":" + c["kind"] for c in outside)),
         "session_rows": len(srows),
         "session_routes": sum(1 for c in srows if c["kind"] == "route"),
         "session_routes_by_hinted_hops": {str(k): v for k, v in sorted(__import__("collections").Counter(
@@ -982,7 +1017,11 @@ def run(ctx):
     })
     ctx.cov.update(st)
     ctx.assumptions += [
-        "amounts < 2^63 and fee products < 2^64 (generator domain): Go wrap-around is not modelled",
+        "amounts < 2^63 and fee products < 2^63 (no Go wrap-around, not modelled): a row whose largest "
+        "observed amount (x2) times the largest clamped fee rate of its graph (inbound rates clamp at "
+        "+-10^7 ppm) reaches 2^63 is set aside and COUNTED (coverage.outside_guards), not judged; this "
+        "happens when a +1000 % inbound fee inflates the amount above ~4.6*10^11 msat and another "
+        "+-1000 % inbound rate is applied to it (InboundFee.CalcFee: rate * int64(amt) wraps)",
         "blinded payment paths: the encrypted data itself, the blinding points and the feature "
         "vectors are opaque (only their lengths / identities are compared); payload sizes of blinded "
         "hops are oracle values measured on the real code; the last-hop restriction is read as lnd "
